@@ -80,11 +80,37 @@ Proof.
   induction wr as [|b wr IH]; cbn [map csums_ok2 filter forallb]; [reflexivity|].
   rewrite IH. destruct (is_gso b); cbn [negb orb forallb]; reflexivity.
 Qed.
+Lemma remove_first_sound x l l' : remove_first x l = Some l' -> Permutation l (x :: l').
+Proof.
+  revert l'; induction l as [|y l IH]; intros l' H; cbn [remove_first] in H; [discriminate|].
+  destruct (list_eqb x y) eqn:E.
+  - apply list_eqb_eq in E. inversion H; subst. apply Permutation_refl.
+  - destruct (remove_first x l) as [r|] eqn:Er; [|discriminate]. inversion H; subst.
+    eapply perm_trans; [apply perm_skip; apply (IH r eq_refl)|apply perm_swap].
+Qed.
+Lemma perm_eqb_sound a : forall b, perm_eqb a b = true -> Permutation a b.
+Proof.
+  induction a as [|x a IH]; intros b H; cbn [perm_eqb] in H.
+  - destruct b; [apply perm_nil|discriminate].
+  - destruct (remove_first x b) as [b'|] eqn:E; [|discriminate].
+    eapply perm_trans; [apply perm_skip; apply (IH _ H)|apply Permutation_sym; apply (remove_first_sound _ _ _ E)].
+Qed.
+(* clause 6 implies clause 3 *)
+Lemma csum_kept_floweq inp tw out : csum_kept_ok inp tw out = true -> floweq_ok inp tw out = true.
+Proof.
+  unfold csum_kept_ok, floweq_ok, floweq_gen. fold canon. intros H. apply perm_eqb_sound in H.
+  apply (Permutation_map (@tl N)) in H. rewrite !map_map in H. cbn [canonv tl] in H.
+  apply perm_eqb_complete. exact H.
+Qed.
 Theorem holdsb_clauses inp tw out :
   holdsb inp tw out = bookkeeping_ok inp tw out && passthrough_ok inp tw out && floweq_ok inp tw out
                       && udp_order_ok inp tw out && headers_valid_ok tw out && csum_kept_ok inp tw out.
 Proof.
-  unfold holdsb, csum_kept_ok, bookkeeping_ok, floweq_ok, floweq_gen, udp_order_ok, udp_order_gen, udp_order_segs, headers_valid_ok,
-    descriptors_ok, lengths_all_ok, checksums_ok, gso_buffers, segments. cbv zeta.
-  rewrite csums_ok2_eq, <- flat_map_concat_map. reflexivity.
+  assert (E : holdsb inp tw out = bookkeeping_ok inp tw out && passthrough_ok inp tw out
+                      && udp_order_ok inp tw out && headers_valid_ok tw out && csum_kept_ok inp tw out).
+  { unfold holdsb, csum_kept_ok, bookkeeping_ok, udp_order_ok, udp_order_gen, udp_order_segs, headers_valid_ok,
+      descriptors_ok, lengths_all_ok, checksums_ok, gso_buffers, segments. cbv zeta.
+    rewrite csums_ok2_eq, <- flat_map_concat_map. reflexivity. }
+  rewrite E. destruct (csum_kept_ok inp tw out) eqn:K; [|rewrite !andb_false_r; reflexivity].
+  rewrite (csum_kept_floweq _ _ _ K), !andb_true_r. reflexivity.
 Qed.
